@@ -6,6 +6,7 @@ mod c28;
 mod c29;
 mod c30;
 mod ctl;
+mod model;
 mod toy;
 mod world;
 
